@@ -213,7 +213,11 @@ pub fn find(env: &Env, rest: &[String]) -> i32 {
     let shows = |tape: &Vec<u16>| -> bool {
         let prog = gen_program(tape, &prof);
         let src = prog.to_ink();
-        let Ok(Ok(json)) = guard(|| compile(&src)) else { return needle == "COMPILE" };
+        let json = match guard(|| compile(&src)) {
+            Ok(Ok(j)) => j,
+            Ok(Err(e)) => return needle.strip_prefix("COMPILE").map(|n| e.contains(n.trim_start_matches(':'))).unwrap_or(false),
+            Err(_) => return needle == "COMPILE",
+        };
         let meta = Rc::new(meta_from_json(&json));
         let r = guard(|| {
             let mut h = Host::new(&json, meta.clone(), &HostCfg::default()).unwrap();
